@@ -66,10 +66,33 @@ def check_download(inp):
             raise Boom('no route')
           return FakeResp(payload, _f if isinstance(_f, int) else None, _f == 'status')
         downloads.requests.get = fake_get
+        real_log, real_time = downloads.log, downloads.time.time
         try:
-          got = downloads.maybe_download('http://x/y/data.bin', d, progress_=range)
+          if inp.get('log_fault') is not None and f is not None:
+            # the DEFAULT progress reporter with a stderr that breaks at its k-th line (a clock that makes every block log)
+            clock, lines = {'t': 0.0}, {'n': 0}
+
+            def fake_time():
+              clock['t'] += 2.0
+              return clock['t']
+
+            def bad_log(*a, **k):
+              if a and str(a[0]).startswith(('Downloading', 'Reusing')):
+                return
+              lines['n'] += 1
+              if lines['n'] == inp['log_fault']:
+                raise BrokenPipeError('stderr is gone')
+            downloads.log, downloads.time.time = bad_log, fake_time
+            try:
+              got = downloads.maybe_download('http://x/y/data.bin', d)
+            except (Boom, OSError):
+              got = None
+          else:
+            got = downloads.maybe_download('http://x/y/data.bin', d, progress_=range)
         except Boom:
           got = None
+        finally:
+          downloads.log, downloads.time.time = real_log, real_time
         if os.path.exists(final) and open(final, 'rb').read() != payload:
           return (f'after fault {f!r} (faults so far {faults}): {final} exists with '
                   f'{os.path.getsize(final)} of {size} bytes')
@@ -92,6 +115,8 @@ def sweep_download(tier, seed):
       yield dict(size=size, faults=[f, f])
       yield dict(size=size, faults=[f, 'connect', f])
       yield dict(size=size, faults=[f] * 4)
+    for k in range(1, nblocks + 2):
+      yield dict(size=size, faults=['log'], log_fault=k)
 
 
 def check_lzma(inp):
